@@ -35,6 +35,14 @@ def inside_case(vd, region, east, north, kind, rnd=None):
         east, north = core.relayout(east, rnd), core.relayout(north, rnd)
     try:
         out = vd.inside((east, north), region)
+        if rnd is not None and east.size:
+            # the mask belongs to the caller: a later call (same shapes, another region) must not change it
+            keep = out.copy()
+            w_, e_, s_, n_ = [float(v) for v in region]
+            vd.inside((east, north), (w_ - 1e3, e_ + 1e3, s_ - 1e3, n_ + 1e3))
+            vd.inside((east, north), (e_ + 1.0, e_ + 2.0, n_ + 1.0, n_ + 2.0))
+            if not np.array_equal(out, keep):
+                out = ~keep        # report the overwritten mask as the wrong answer it now is
         ok = out.shape == east.shape and out.dtype == bool
         obs = [bool(b) for b in out.ravel()] if ok else None
         cobs = "(Some %s)" % clist([cbool(b) for b in obs]) if ok else "(Some [])"
@@ -42,7 +50,9 @@ def inside_case(vd, region, east, north, kind, rnd=None):
         obs = "ValueError"
         cobs = "None"
     term = "c13_inside %s %s %s %s" % (dl(region), dl(east.ravel()), dl(north.ravel()), cobs)
-    repro = "import verde, numpy as np; print(verde.inside((np.array(%r), np.array(%r)), %r))" % (east.tolist(), north.tolist(), list(region))
+    repro = ("import verde, numpy as np; c=(np.array(%r), np.array(%r)); m=verde.inside(c, %r); k=m.copy(); "
+             "verde.inside(c, (-1e9, 1e9, -1e9, 1e9)); verde.inside(c, (1e9, 2e9, 1e9, 2e9)); print(k, 'unchanged by later calls:', (m == k).all())"
+             % (east.tolist(), north.tolist(), list(region)))
     return Case({"fn": "inside", "region": list(region), "easting": east.tolist(), "northing": north.tolist()}, obs, term, repro, kind,
                 nontrivial=obs != "ValueError" and east.size > 0)
 
